@@ -617,6 +617,11 @@ def bindPositional (fid : Nat) : List (String × Option Expr) → List Value →
   | (p, _) :: ps, v :: vs => do setVarIn fid p v; bindPositional fid ps vs
   | _, _ => pure ()
 
+/-- Separator of the argument list bound to a rest parameter: that of the list spread into the
+    call (`f($list...)`), a comma when the arguments were passed one by one (visitor.rs:2343). -/
+def restSep (dev : Dev) (spread : Sep) : Sep :=
+  if dev.restAlwaysComma || spread == .undecided then .comma else spread
+
 /-- Invoke a user-defined callable: fresh frame on top of the captured chain, arity check, bind,
     run `body` in the callee context; leftover named arguments with a rest parameter become the
     argument list's keywords, and are an error after the body has run unless they were read
@@ -631,7 +636,7 @@ def invoke {α : Type} (r : Rec) (dev : Dev) (mk : Nat → Ctx) (ps : Params) (e
     let left ← bindRest r ctx fid (ps.ps.drop ev.pos.length) ev.named
     let _ ← (match ps.rest with
       | some rn =>
-        let sep := if dev.restAlwaysComma || ev.sep == .undecided then Sep.comma else ev.sep
+        let sep := restSep dev ev.sep
         setVarIn fid rn (.arglist (ev.pos.drop ps.ps.length) sep left fid)
       | none => pure ())
     let out ← body ctx
